@@ -14,7 +14,7 @@ for name in "$@"; do
     demo_with="n/a"; demo_without="n/a"
     if [ -d "$D/demo" ]; then
         rm -rf $WT/seeded_demo && cp -r "$D/demo" $WT/seeded_demo && cp $WT/Cargo.lock $WT/seeded_demo/
-        sed -i "s#/tmp/wt_C[0-9]*b\\?#$WT#g" $WT/seeded_demo/Cargo.toml
+        sed -i "s#/tmp/wt_C[0-9]*[a-z]\\?#$WT#g" $WT/seeded_demo/Cargo.toml
         (cd $WT/seeded_demo && cargo run --offline -q >$WT/demo_with.log 2>&1); demo_with=$?
     fi
     cargo test $pkgs --lib --offline >$WT/tests.log 2>&1; tests=$?
